@@ -11,6 +11,7 @@ package dawn
 // events for the TLA+ monitor BuildMon.
 
 import (
+	"runtime"
 	"net/url"
 	"math/rand"
 	"bufio"
@@ -831,14 +832,15 @@ func (w *bWorld) build(st *bStep) {
 		if st.Mode == "always" || st.Mode == "dry" {
 			ropts = &RunOptions{Always: st.Mode == "always", DryRun: st.Mode == "dry"}
 		}
+		baseGoroutines := runtime.NumGoroutine()
 		rerr := proj.Run(w.rootLabel(st.Root), ropts)
 		if rerr != nil {
 			// after a cyclic-dependency error Run returns while other targets may still be
-			// running: let them finish before anything is measured
-			for i := 0; i < 400 && w.inflight.Load() != 0; i++ {
+			// running, or may not even have started: let them finish (no evaluating target, and
+			// no goroutine left over from the run) before anything is measured
+			for i := 0; i < 800 && (w.inflight.Load() != 0 || runtime.NumGoroutine() > baseGoroutines); i++ {
 				time.Sleep(5 * time.Millisecond)
 			}
-			time.Sleep(20 * time.Millisecond)
 		}
 		w.logEvent("BuildEnd", "root", st.Root, "err", rerr != nil, "msg", fmt.Sprint(rerr))
 		if st.Mode == "dry" {
